@@ -449,4 +449,4 @@ def replay(art):
         return tuple(tup(i) for i in x) if isinstance(x, list) else x
     st = runner.Stats()
     eval_case(space.from_json(c['shape']), c['form'], tup(sel), st, replaying=True)
-    return [v['detail'] for v in st.viol] or None
+    return runner.fresh_details('C12', st) or None
